@@ -236,8 +236,11 @@ func (d *regDriver) Call(ip *absint.Interp, site ssa.CallInstruction, args []abs
 	if cal == nil {
 		return nil, false
 	}
-	if d.c.InScope(cal) && cal.Signature.Recv() != nil && d.ownState(core.NamedOf(cal.Signature.Recv().Type())) && pureTextFn(d.c, cal, 0) {
+	if d.c.InScope(cal) && cal.Signature.Recv() != nil && d.ownState(core.NamedOf(cal.Signature.Recv().Type())) && (pureTextFn(d.c, cal, 0) || onlyLoggedText(d.c, cal)) {
 		return &absint.Opaque{Why: "text of " + cal.Name()}, true // a rendering for a log line: reads and formats only
+	}
+	if full := cal.String(); strings.HasPrefix(full, "time.") || strings.HasPrefix(full, "(time.") {
+		return &absint.Opaque{Why: "time"}, true // a clock read for a statistic: a registry that decides by one leaves the model there
 	}
 	if full := cal.String(); strings.HasPrefix(full, "(*sync/atomic.") {
 		// counters of the registry's own: written blindly; a value read from one is unknown (a registry that decides
@@ -610,7 +613,7 @@ func alphabetRules(c *core.Ctx, r *core.Report, rule string) {
 func c04(c *core.Ctx, r *core.Report) {
 	r.Explanation = "C04 singleton cache protocol as typestate: every receiver field used as a map/set cell becomes an abstract cell for one tracked name; the bodies of AddSingletonFactory, AddSingleton, GetSingleton, GetSingletonOrCreateByFactory and IsSingletonCurrentlyInCreation are interpreted (SSA, symbolic tokens, cell primitives answered by the model, same-receiver helpers inlined, logging effect-free); every history a factory can issue for one name - lookups with/without early references, in-creation queries, create begin, add factory (<=1 per creation), create end ok/fail, early factory ok/fail - is explored to a fixpoint over (cell contents, monitor) with bounded tokens (2 creations, 3 early runs) and checked against observational assertions A1 one early reference / A2 in-creation mark / A3 published is final / A4 clean failure (including: the clean-up of a failed attempt never deletes from a cell that receives published instances) / A5 early-factory error. R1: every cell operation is keyed by the method's name parameter (makes the per-name projection sound). R3: the factory side of the protocol that the alphabet relies on - the accessor consults the cache (early references allowed) before creating, the early factory is registered exactly under the un-narrowed exposure condition and before any dependency is resolved, the creator's own lookup does not allow creating an early reference. Decides every single-name history; does not decide custom registries or the atomicity of sync.Map (C20)."
 	r.Assumptions = []string{"sync2.Map / list.Set primitives behave as a map / set per key (delegation checked in C20.R4)", "operations on other names do not touch this name's cells (C04.R1)", "the factory issues at most one AddSingletonFactory per creation and does not re-enter creation of the same name while it is in creation (C02.R1/R3)"}
-	impls := c.Implementors(c.Iface("container", "SingletonComponentRegistry"))
+	impls := implementorsBehindFacades(c, "container", "SingletonComponentRegistry")
 	r.Count("registry_impls", len(impls))
 	if !r.Exactly("C04.R0", "SingletonComponentRegistry implementations", len(impls), 1) {
 		return
